@@ -439,6 +439,99 @@ theorem runSteps_nodup (env : Env) (ld : LevelData) : ∀ (steps : List Step) (s
     have := runSteps_nodup env ld rest (runStep env ld s st) this
     simpa [runSteps] using this
 
+/-- What is trusted of schema validation and the plugins for a consistency invariant `Inv` of the database
+    (the relatives' invariants: membership closure C17, references C16, unique names C19, spn C22 — as far as
+    they are statements about the stored state): a create / modify they ACCEPT keeps `Inv`, and so does a
+    delete with its reference clean-up. -/
+structure PluginsKeep (env : Env) (Inv : List DbEntry → Prop) : Prop where
+  create : ∀ db u e, Inv db → env.acceptCreate db u e = true → Inv (db ++ [⟨u, true, e⟩])
+  modify : ∀ db x e, Inv db → x ∈ db → env.acceptModify db x e = true → Inv (setAttrs db x.uuid e)
+  delete : ∀ p s, Inv s.db → Inv (deleteWhere env.isRef p s).db
+
+theorem migrateOrCreate_inv (env : Env) (Inv : List DbEntry → Prop) (hk : PluginsKeep env Inv)
+    (db db' : List DbEntry) (u : Nat) (d : Def) (h : migrateOrCreate env db u d = .ok db') (hi : Inv db) :
+    Inv db' := by
+  unfold migrateOrCreate at h
+  split at h
+  · simp only at h
+    split at h
+    · cases h
+    · rename_i hc
+      injection h with h
+      subst h
+      apply hk.create db u _ hi
+      simp at hc
+      exact hc.2
+  · rename_i x hx
+    split at h
+    · cases h
+    · simp only at h
+      split at h
+      · rename_i hacc
+        injection h with h
+        subst h
+        have hxin : x ∈ hits db u := by rw [hx]; simp
+        have hx' := List.mem_filter.mp hxin
+        have hu : x.uuid = u := by
+          have := hx'.2; simp at this; exact this.2
+        have := hk.modify db x _ hi hx'.1 hacc
+        rw [hu] at this
+        exact this
+      · cases h
+  · cases h
+
+theorem batch_inv (env : Env) (Inv : List DbEntry → Prop) (hk : PluginsKeep env Inv) :
+    ∀ (defs : List (Nat × Def)) (db : List DbEntry), Inv db → Inv (batch env db defs).1
+  | [], db, hi => by simpa [batch] using hi
+  | (u, d) :: rest, db, hi => by
+    unfold batch
+    cases h : migrateOrCreate env db u d with
+    | error e => simpa using hi
+    | ok db' =>
+      simp only
+      exact batch_inv env Inv hk rest db' (migrateOrCreate_inv env Inv hk db db' u d h hi)
+
+/-- **Every consistency invariant the plugins keep write by write is kept by a whole migration level** —
+    a failing batch included (its completed upserts were accepted ones). -/
+theorem runSteps_preserves_invariant (env : Env) (ld : LevelData) (Inv : List DbEntry → Prop)
+    (hk : PluginsKeep env Inv) : ∀ (steps : List Step) (s : St), Inv s.db → Inv (runSteps env ld s steps).db
+  | [], s, hi => by simpa [runSteps] using hi
+  | st :: rest, s, hi => by
+    have : Inv (runStep env ld s st).db := by
+      cases st with
+      | batch n => exact batch_inv env Inv hk _ s.db hi
+      | deleteBatch => exact hk.delete _ s hi
+      | deleteDbSchema => exact hk.delete _ s hi
+      | schemaInMemory => exact hi
+      | reload => exact hi
+      | reindex => exact hi
+      | phase p => exact hi
+      | fixup => exact hi
+    have := runSteps_preserves_invariant env ld Inv hk rest (runStep env ld s st) this
+    simpa [runSteps] using this
+
+/-- non-vacuity of `PluginsKeep`: uuid uniqueness, for any environment whose create refuses a uuid that is
+    already there (the base plugin) -/
+theorem pluginsKeep_uuidNodup (env : Env)
+    (hfresh : ∀ db u e, env.acceptCreate db u e = true → u ∉ db.map (·.uuid)) :
+    PluginsKeep env UuidNodup := by
+  refine ⟨?_, ?_, ?_⟩
+  · intro db u e hn hacc
+    unfold UuidNodup at *
+    simp only [List.map_append, List.map_cons, List.map_nil]
+    apply List.nodup_append.mpr
+    refine ⟨hn, by simp, ?_⟩
+    intro a ha b hb
+    simp at hb
+    subst hb
+    exact fun hab => hfresh db b e hacc (hab ▸ ha)
+  · intro db x e hn _ _
+    unfold UuidNodup at *
+    rw [setAttrs_uuids]
+    exact hn
+  · intro p s hn
+    exact deleteWhere_nodup env.isRef p s hn
+
 /-- the entry with `uuid`, live, carrying the asserted values of `d` -/
 def Carries (db : List DbEntry) (u : Nat) (d : Def) : Prop :=
   ∃ y ∈ db, y.uuid = u ∧ y.live = true ∧
